@@ -13,6 +13,7 @@
 import YtkModel.Generated.Constants
 import YtkProofs.K8s
 import YtkProofs.GapK8s
+import YtkProofs.Props
 import YtkProofs.RebuildB
 import YtkProofs.ValidB
 import YtkProofs.Decisions
@@ -485,5 +486,38 @@ theorem embedded_props_needs_representable_counterexample :
     | panic => simp [ho] at key
   | err => simp [hs] at key
   | panic => simp [hs] at key
+
+/-! ### round 8, cross-property: properties-mode reopen IS C16's FromProperties -/
+
+/-- the string items of a manifest as a flat map of string scalars (what magiconair would hand to C16) -/
+def strItems (m : Manifest) : AMap Scalar := m.str.map fun p => (p.1, (⟨"string", p.2⟩ : Scalar))
+
+/-- `DecodeEmbeddedProps` (this property's model) is literally `FromProperties` (C16's model) on the
+    string items: the same `AddValueAt` loop in key order -/
+theorem decodeEmbeddedProps_eq_fromProperties (m : Manifest) :
+    decodeEmbeddedProps m = .cont (Props.fromProperties (strItems m)) := by
+  simp only [decodeEmbeddedProps, Props.fromProperties, Props.fromPropertiesList, strItems, List.foldl_map]
+
+/-- hence C16's exactness theorem applies to what a k8s properties document reopens as: when no item
+    key is a dotted prefix of another (and the keys are path-safe), the reopened document's flattened
+    leaves are EXACTLY the string items — every item, as a string, nothing else.  (The converse round
+    trip, document → items → document, is `embedded_props_roundtrip`.) -/
+theorem embedded_props_open_flatten (m : Manifest) (h : WFm m)
+    (hk : ∀ p ∈ strItems m, Props.KeyOk p.1) (hpf : Props.PrefixFree (strItems m)) :
+    ∃ kvs, decodeEmbeddedProps m = .cont kvs ∧ flattenMap kvs = strItems m :=
+  ⟨_, decodeEmbeddedProps_eq_fromProperties m,
+    Props.flattenMap_fromProperties (sorted_map_val _ h.str_sorted) hpf
+      (fun p hp s hs => (hk p hp s hs).1) (fun p hp s hs => (hk p hp s hs).2)⟩
+
+/-- non-vacuity: items `a.b=1`, `a.c=x`, `k=` — path-safe, prefix-free; reopened as `{a: {b: 1, c: x}, k: ""}` -/
+theorem nonvacuous_embedded_props_open :
+    let m : Manifest := ⟨[("kind", strVal "Secret")], [("a.b", "1"), ("a.c", "x"), ("k", "")], [], "data", "stringData"⟩
+    (∀ p ∈ strItems m, Props.KeyOk p.1) ∧ Props.PrefixFree (strItems m) ∧
+    decodeEmbeddedProps m = .cont [("a", .cont [("b", .leaf ⟨"string", "1"⟩), ("c", .leaf ⟨"string", "x"⟩)]),
+      ("k", .leaf ⟨"string", ""⟩)] := by
+  intro m
+  refine ⟨?_, ?_, by decide +kernel⟩
+  · intro p hp s hs; revert s hs; revert p hp; decide +kernel
+  · intro p hp q hq; revert q hq; revert p hp; decide +kernel
 
 end Ytk.C17
